@@ -155,7 +155,7 @@ def work_items(ctx):
     else:
         items += [('pair', pr, None, 'visible') for pr in pairs]
         items += [('multi', (m, o), None, 'visible') for m in multi for o in (row3 + ['new_3'] if creates_3(m) else names)]
-        items += [('multi', pr, 3, 'visible') for pr in itertools.combinations_with_replacement(multi, 2)]
+        items += [('multi', pr, 2, 'visible') for pr in itertools.combinations_with_replacement(multi, 2)]
         items += [('triple', tr, 3, 'visible') for tr in itertools.combinations_with_replacement(TRIPLE_CORE, 3)]
         items += [('xcheck', pr, 2, 'all') for pr in XCHECK]
     return items
@@ -279,7 +279,7 @@ def run(ctx):
                            'multi-transaction session x %d/%d partners: bound 2 for the first four partners, bound 1 otherwise'
                            % (len(QUICK_CORE), len(QUICK_TRIPLE_CORE), len(PARTNERS_1), len(PARTNERS_3))) if ctx.quick else
                           ('pairs: all interleavings; triples of %d programs: preemption bound 3; multi-transaction session x every '
-                           'single-transaction program: all interleavings; multi x multi: preemption bound 3' % len(TRIPLE_CORE)))
+                           'single-transaction program: all interleavings; multi x multi: preemption bound 2' % len(TRIPLE_CORE)))
     ctx.cov['exhaustive'] = True      # the stated bounded space is covered completely (caps would reset this)
     ctx.assume('SQLite only for behaviour; PostgreSQL: UPDATE text on a statement-log connection (DM transaction model), server behaviour out of reach')
     return out
